@@ -235,9 +235,18 @@ func payloadFields(id string, task, seq, size int) []log.Field {
 // emit performs one logging call through the entry point op.Kind and returns
 // what was submitted. The call and runtime.Caller sit on one source line so
 // that the expected file:line is known exactly.
+// emitSharedCtx, when set, is the one context object every call of the case passes (a request
+// context shared by the goroutines working on the request).
+var emitSharedCtx context.Context
+
 func emit(task, seq int, tag *log.Tag, tagName string, op EvOp, level log.Level) *Submitted {
 	k := evKey{task: task, seq: seq, ctxMode: op.Ctx}
 	ctx := callerContext(k, op.Ctx)
+	if emitSharedCtx != nil {
+		ctx = emitSharedCtx
+		k, _ = ctx.Value(ctxKey).(evKey)
+		op.Ctx = k.ctxMode
+	}
 	id := fmt.Sprintf("t%ds%d", task, seq)
 	s := &Submitted{ID: id, Task: task, Seq: seq, Tag: tagName, Time: evTime(k), Level: entryLevels[op.Kind]}
 	if op.Ctx&1 != 0 {
